@@ -1,5 +1,6 @@
 import AnyTLS.Model.Conc
 import AnyTLS.Lemmas.Padding
+import AnyTLS.Lemmas.Session
 
 namespace AnyTLS
 
@@ -1103,6 +1104,37 @@ theorem micro_n (cs cs' : CS) (t : Nat) (hm : micro cs t = some cs') : cs'.n = c
     | (cases hm; simp only [setPC_n, finishOp_n, submit_n, setTask_n, releaseBuf_n, releaseWr_n, enterClose_n, lockWrWrite_n])
 
 
+/-! ### inbound frames -/
+
+open Gen in
+
+/-- inbound commands whose handling touches only stream objects and tables -/
+def inertCmd : Cmd → Bool
+  | .push | .syn | .synAck | .fin | .waste | .heartResponse | .serverSettings => true
+  | _ => false
+
+/-- the part of the session the write / close paths and their invariants look at -/
+def Sess.core (s : Sess) : List Bytes × Bytes × Bool × Bool × Scheme × Bool × Nat × UInt64 × Option Nat × Bool :=
+  (s.wire, s.buffer, s.closed, s.shut, s.scheme, s.buffering, s.pktCounter, s.rng, s.wrBudget, s.sendPadding)
+
+theorem modObj_core (s : Sess) (h : Nat) (f : Obj → Obj) : (s.modObj h f).core = s.core := by
+  unfold Sess.modObj; rfl
+theorem dropRecvEntry_core (s : Sess) (k : Nat) : (s.dropRecvEntry k).core = s.core := by
+  unfold Sess.dropRecvEntry; split <;> first | rfl | exact modObj_core _ _ _
+theorem failPendingOpen_core (s : Sess) (k : Nat) : (s.failPendingOpen k).core = s.core := by
+  unfold Sess.failPendingOpen; split <;> first | rfl | exact modObj_core _ _ _
+
+theorem handleFrame_inert (s : Sess) (f : Frame) (hq : inertCmd f.cmd = true) : (s.handleFrame f).1.core = s.core := by
+  unfold Sess.handleFrame
+  cases hc : f.cmd <;> simp only [hc, inertCmd] at hq ⊢ <;> try (cases hq)
+  all_goals (repeat' split)
+  all_goals first
+    | rfl
+    | exact modObj_core _ _ _
+    | (show (Sess.dropRecvEntry s f.sid).core = _; exact dropRecvEntry_core s f.sid)
+    | (show ((s.dropRecvEntry f.sid).failPendingOpen f.sid).core = _; rw [failPendingOpen_core, dropRecvEntry_core])
+
+
 /-! ### reachability -/
 
 inductive Step : CS → CS → Prop where
@@ -1112,6 +1144,10 @@ inductive Step : CS → CS → Prop where
   | spawn (cs : CS) (k : Task) : k.pc = .idle → k.submitted = [] → k.sids = [] → Step cs (cs.spawn k)
   /-- the transport changes its mind about accepting writes -/
   | env (cs : CS) (b : Option Nat) : Step cs { cs with s := { cs.s with wrBudget := b } }
+  /-- the receive loop handles an inbound frame that needs no write and does not end the session
+  (data, SYN, SYNACK, FIN, padding, keep-alive answer, server settings): it touches stream objects
+  and tables only, at any moment, without taking the locks of the write path -/
+  | recv (cs : CS) (f : Frame) : inertCmd f.cmd = true → Step cs { cs with s := (cs.s.handleFrame f).1 }
 
 inductive Reach (c0 : CS) : CS → Prop where
   | refl : Reach c0 c0
